@@ -458,7 +458,6 @@ impl LightClientProtocol {
                 if let Some(Some(to_number)) = fork_number {
                     debug!("fork to number: {}", to_number);
                     let mut matched_blocks = self.peers.matched_blocks().write().expect("poisoned");
-                    let mut start_number_opt = None;
                     while let Some((start_number, blocks_count, blocks)) =
                         self.storage.get_latest_matched_blocks()
                     {
@@ -480,11 +479,12 @@ impl LightClientProtocol {
                                     blocks,
                                 );
                             }
-                            start_number_opt = Some(start_number);
                             break;
                         }
                     }
-                    let rollback_to = start_number_opt.unwrap_or(to_number) + 1;
+                    // (The kept record ends at the fork point and is still pending: the blocks
+                    // until the fork point stay indexed for the scripts which are ahead of it.)
+                    let rollback_to = to_number + 1;
                     info!("rollback to block#{}", rollback_to);
                     self.storage.rollback_to_block(rollback_to);
                     matched_blocks.clear();
